@@ -44,11 +44,12 @@ def RespAt (r : Resp κ) (pre suf : List κ) (limit n : Nat) : Prop :=
 
 /-- One request at a consistent cursor returns the next `limit` sorted matches, an exact total,
 and a next cursor iff more remain (mechanism: filter raw matches, sort, take `limit+1`). -/
-theorem page_at (h : StrictTotal lt) (matched : List κ) (hnd : matched.Nodup) (limit : Nat)
-    (hl : 0 < limit) (hn : matched.length ≤ maxCursorAdvance + 1)
+theorem page_at (h : StrictTotal lt) (cfg : Limits) (hcfg : cfg.maxAdvance < u32Max)
+    (matched : List κ) (hnd : matched.Nodup) (limit : Nat)
+    (hl : 0 < limit) (hlc : limit ≤ cfg.maxCandidates) (hn : matched.length ≤ cfg.maxAdvance + 1)
     (pre suf : List κ) (hsplit : sortKeys lt matched = pre ++ suf)
     (cur : Option (Cur κ)) (hcur : CurAt cur pre) (hpre : suf ≠ [] ∨ cur = none) :
-    ∃ r, page lt matched cur limit = .ok r ∧ RespAt r pre suf limit matched.length := by
+    ∃ r, page lt cfg matched cur limit = .ok r ∧ RespAt r pre suf limit matched.length := by
   have hperm : (sortKeys lt matched).Perm matched := by
     rw [sortKeys_eq]; exact isort_perm_self matched
   have hlen : pre.length + suf.length = matched.length := by
@@ -86,16 +87,17 @@ theorem page_at (h : StrictTotal lt) (matched : List κ) (hnd : matched.Nodup) (
     have : (sortKeys lt (afterCursor lt matched cur)).Perm (afterCursor lt matched cur) := by
       rw [sortKeys_eq]; exact isort_perm_self _
     rw [← this.length_eq, hcand]
-  have hcap : pre.length ≤ maxCursorAdvance := by
+  have hcap : pre.length ≤ cfg.maxAdvance := by
     rcases hpre with hs | hc
     · have : 0 < suf.length := List.length_pos_iff.mpr hs
       omega
     · subst hc
       have hp : pre = [] := hcur
       simp [hp]
-  have hng : ¬ pre.length > maxCursorAdvance := by omega
+  have hng : ¬ pre.length > cfg.maxAdvance := by omega
+  have hmc : min limit cfg.maxCandidates = limit := Nat.min_eq_left hlc
   unfold page
-  simp only [hret, hsaw, hcand, hcandlen, hng, if_false, Bool.not_true, Bool.false_eq_true]
+  simp only [hret, hsaw, hcand, hcandlen, hng, hmc, if_false, Bool.not_true, Bool.false_eq_true]
   unfold pageOf
   by_cases hgt : limit < suf.length
   · have htl : (List.take (limit + 1) suf).length > limit := by
@@ -112,9 +114,7 @@ theorem page_at (h : StrictTotal lt) (matched : List κ) (hnd : matched.Nodup) (
       | none => exact absurd (List.getLast?_eq_none_iff.mp hq) hne
       | some k => exact ⟨k, rfl⟩
     have hmin : min (pre.length + limit) u32Max = pre.length + limit := by
-      have : pre.length + limit ≤ u32Max := by
-        have : maxCursorAdvance + 1 ≤ u32Max := by decide
-        omega
+      have : pre.length + limit ≤ u32Max := by omega
       exact Nat.min_eq_left this
     simp only [htl, if_true, htt, hk, hmin]
     refine ⟨_, rfl, ?_, Or.inr ⟨hgt, rfl, k, hk, rfl⟩⟩
@@ -133,12 +133,14 @@ def WalkShape (pages : List (Resp κ)) (limit : Nat) : Prop :=
   (∀ r ∈ pages.dropLast, r.next.isSome = true ∧ r.hits.length = limit) ∧
   (∃ r, pages.getLast? = some r ∧ r.next = none ∧ r.hits.length ≤ limit)
 
-theorem walk_from (h : StrictTotal lt) (matched : List κ) (hnd : matched.Nodup) (limit : Nat)
-    (hl : 0 < limit) (hn : matched.length ≤ maxCursorAdvance + 1) :
+theorem walk_from (h : StrictTotal lt) (cfg : Limits) (hcfg : cfg.maxAdvance < u32Max)
+    (recode : κ → κ) (matched : List κ) (hnd : matched.Nodup) (hrec : ∀ k ∈ matched, recode k = k)
+    (limit : Nat) (hl : 0 < limit) (hlc : limit ≤ cfg.maxCandidates)
+    (hn : matched.length ≤ cfg.maxAdvance + 1) :
     ∀ (fuel : Nat) (cur : Option (Cur κ)) (pre suf : List κ),
       sortKeys lt matched = pre ++ suf → CurAt cur pre → (suf ≠ [] ∨ cur = none) →
       suf.length < fuel * limit + 1 → 0 < fuel →
-      ∃ pages, walkPages lt matched limit fuel cur = some pages ∧
+      ∃ pages, walkPages lt cfg recode matched limit fuel cur = some pages ∧
         (pages.map (·.hits)).flatten = suf ∧ (∀ r ∈ pages, r.total = matched.length) ∧
         WalkShape pages limit ∧ (suf ≠ [] → ∀ r ∈ pages, r.hits ≠ []) := by
   intro fuel
@@ -146,7 +148,8 @@ theorem walk_from (h : StrictTotal lt) (matched : List κ) (hnd : matched.Nodup)
   | zero => intro _ _ _ _ _ _ _ hf; omega
   | succ fuel ih =>
     intro cur pre suf hsplit hcur hpre hlen _
-    obtain ⟨r, hpage, htot, hshape⟩ := page_at h matched hnd limit hl hn pre suf hsplit cur hcur hpre
+    obtain ⟨r, hpage, htot, hshape⟩ :=
+      page_at h cfg hcfg matched hnd limit hl hlc hn pre suf hsplit cur hcur hpre
     unfold walkPages
     simp only [hpage]
     rcases hshape with ⟨hle, hhits, hnext⟩ | ⟨hgt, hhits, k, hk, hnext⟩
@@ -157,7 +160,14 @@ theorem walk_from (h : StrictTotal lt) (matched : List κ) (hnd : matched.Nodup)
       have : r' = r := by simpa using hr'
       subst this; rw [hhits]; exact hs
     · -- a full page and a cursor
-      simp only [hnext]
+      have hkmem : k ∈ matched := by
+        have hp : (sortKeys lt matched).Perm matched := by
+          rw [sortKeys_eq]; exact isort_perm_self matched
+        apply hp.mem_iff.mp
+        rw [hsplit]
+        apply List.mem_append_right
+        exact List.mem_of_mem_take (List.mem_of_getLast? hk)
+      simp only [hnext, hrec k hkmem]
       have hfuel : 0 < fuel := by
         rcases Nat.eq_zero_or_pos fuel with h0 | h0
         · subst h0; simp at hlen; omega
@@ -210,15 +220,18 @@ at most `MAX_CURSOR_ADVANCE + 1` distinct matching keys: following `next` from t
 until it is absent never fails, the pages concatenate to exactly the sorted matches (every match
 once, in order), every response reports the exact total, and `next` is absent exactly on the last
 page (all earlier pages are full). -/
-theorem walk_complete (h : StrictTotal lt) (matched : List κ) (hnd : matched.Nodup) (limit : Nat)
-    (hl : 0 < limit) (hn : matched.length ≤ maxCursorAdvance + 1) :
-    ∃ pages, walkPages lt matched limit (matched.length + 1) none = some pages ∧
+theorem walk_complete (h : StrictTotal lt) (cfg : Limits) (hcfg : cfg.maxAdvance < u32Max)
+    (recode : κ → κ) (matched : List κ) (hnd : matched.Nodup) (hrec : ∀ k ∈ matched, recode k = k)
+    (limit : Nat) (hl : 0 < limit) (hlc : limit ≤ cfg.maxCandidates)
+    (hn : matched.length ≤ cfg.maxAdvance + 1) :
+    ∃ pages, walkPages lt cfg recode matched limit (matched.length + 1) none = some pages ∧
       (pages.map (·.hits)).flatten = sortKeys lt matched ∧
       (∀ r ∈ pages, r.total = matched.length) ∧ WalkShape pages limit := by
   have hlenS : (sortKeys lt matched).length = matched.length := by
     rw [sortKeys_eq]; exact (isort_perm_self matched).length_eq
   obtain ⟨pages, hw, hflat, htot, hshape, _⟩ :=
-    walk_from h matched hnd limit hl hn (matched.length + 1) none [] (sortKeys lt matched)
+    walk_from h cfg hcfg recode matched hnd hrec limit hl hlc hn (matched.length + 1) none []
+      (sortKeys lt matched)
       (by simp) rfl (Or.inr rfl)
       (by
         rw [hlenS]
@@ -231,11 +244,13 @@ theorem walk_complete (h : StrictTotal lt) (matched : List κ) (hnd : matched.No
 
 /-- every match is returned exactly once: the concatenated pages are a permutation of the
 matches without repetition -/
-theorem walk_each_once (h : StrictTotal lt) (matched : List κ) (hnd : matched.Nodup) (limit : Nat)
-    (hl : 0 < limit) (hn : matched.length ≤ maxCursorAdvance + 1) :
-    ∃ pages, walkPages lt matched limit (matched.length + 1) none = some pages ∧
+theorem walk_each_once (h : StrictTotal lt) (cfg : Limits) (hcfg : cfg.maxAdvance < u32Max)
+    (recode : κ → κ) (matched : List κ) (hnd : matched.Nodup) (hrec : ∀ k ∈ matched, recode k = k)
+    (limit : Nat) (hl : 0 < limit) (hlc : limit ≤ cfg.maxCandidates)
+    (hn : matched.length ≤ cfg.maxAdvance + 1) :
+    ∃ pages, walkPages lt cfg recode matched limit (matched.length + 1) none = some pages ∧
       ((pages.map (·.hits)).flatten).Perm matched ∧ ((pages.map (·.hits)).flatten).Nodup := by
-  obtain ⟨pages, hw, hflat, _, _⟩ := walk_complete h matched hnd limit hl hn
+  obtain ⟨pages, hw, hflat, _, _⟩ := walk_complete h cfg hcfg recode matched hnd hrec limit hl hlc hn
   have hp : (sortKeys lt matched).Perm matched := by rw [sortKeys_eq]; exact isort_perm_self matched
   exact ⟨pages, hw, by rw [hflat]; exact hp, by rw [hflat]; exact hp.nodup_iff.mpr hnd⟩
 
@@ -266,8 +281,8 @@ def CountsPrefix (lt : κ → κ → Bool) (matched : List κ) (cur : Option (Cu
 
 /-- **total_le** — `total_hits_estimate` never exceeds the number of matches, whatever a pruning
 executor skipped, and is exact when nothing was skipped (exhaustive execution). -/
-theorem total_le (matched : List κ) (cur : Option (Cur κ)) (limit skipped : Nat) (r : Resp κ)
-    (hc : CountsPrefix lt matched cur) (hp : page lt matched cur limit skipped = .ok r) :
+theorem total_le (cfg : Limits) (matched : List κ) (cur : Option (Cur κ)) (limit skipped : Nat)
+    (r : Resp κ) (hc : CountsPrefix lt matched cur) (hp : page lt cfg matched cur limit skipped = .ok r) :
     r.total ≤ matched.length ∧ (skipped = 0 → r.total = matched.length) := by
   unfold page at hp
   split at hp
